@@ -652,7 +652,9 @@ type hop struct {
 	Inv, Ret int64
 }
 
-var linKeys = []string{"/a/1", "/a/2", "/b/1"}
+// keys as the server forms them (/<kind>/<name>), including names that contain another
+// listing prefix after their start: List(prefix) is about keys that START with the prefix
+var linKeys = []string{"/a/1", "/a/2", "/b/1", "/b/a/1", "/b/to/a/"}
 
 func applySpec(state map[string]string, o hop) (bool, func()) {
 	switch o.Op {
@@ -760,7 +762,7 @@ func linHistories(seed int64, dur time.Duration) stressResult {
 				case x < 8:
 					o.Op = "del"
 				default:
-					o.Op, o.Key = "list", []string{"/", "/a/"}[r.Intn(2)]
+					o.Op, o.Key = "list", []string{"/", "/a/", "/a/", "/b/"}[r.Intn(4)]
 				}
 				plans[c] = append(plans[c], o)
 			}
@@ -1045,7 +1047,7 @@ func c20Sequential(c *Ctx) {
 	if c.Thorough() {
 		n = 3000
 	}
-	keys := []string{"/a/1", "/a/2", "/b/1", "/a/", "/"}
+	keys := []string{"/a/1", "/a/2", "/b/1", "/a/", "/", "/b/a/1", "/b/to/a/", "/a/b/a/"}
 	vals := []string{"1", "2", "x y", ""}
 	for i := 0; i < n; i++ {
 		st := &samlidp.MemoryStore{}
@@ -1080,7 +1082,7 @@ func c20Sequential(c *Ctx) {
 				in = append(in, "delete "+key)
 				c.Count("seq/delete")
 			default:
-				pre := []string{"/", "/a/", "/b", ""}[c.Rng.Intn(4)]
+				pre := []string{"/", "/a/", "/a/", "/b", "/b/", ""}[c.Rng.Intn(6)]
 				ks, _ := st.List(pre)
 				ops = append(ops, "SList "+emit.Str(pre))
 				obs = append(obs, "RKeys "+emit.StrList(ks))
